@@ -7,6 +7,7 @@ import (
 	"encoding/json"
 	"fmt"
 	"os"
+	"os/user"
 	"path/filepath"
 	"runtime/debug"
 	"sort"
@@ -65,7 +66,20 @@ func (h *recHandler) ReadFile(name string) ([]byte, error) {
 	if b, ok := h.files[name]; ok {
 		return b, nil
 	}
+	// a file written as ~/x is asked for under the user's home directory
+	if home := homeDir(); home != "" && strings.HasPrefix(name, home+"/") {
+		if b, ok := h.files["~/"+name[len(home)+1:]]; ok {
+			return b, nil
+		}
+	}
 	return nil, os.ErrNotExist
+}
+
+func homeDir() string {
+	if u, err := user.Current(); err == nil && u != nil {
+		return u.HomeDir
+	}
+	return ""
 }
 func (h *recHandler) Do(typ, param string) error {
 	h.calls = append(h.calls, map[string]any{"op": "do", "name": typ, "val": strInts(param)})
